@@ -1,3 +1,4 @@
+pub mod c07;
 pub mod gen;
 pub mod hx;
 pub mod inflight;
